@@ -133,6 +133,10 @@ func l2Inadmissible(t *l2Target, repl [][2]string) string {
 			return "direct curve arithmetic with a scalar that is 0 mod q"
 		case c.kind == kPoint && (rp[1] == "zero(0,0)" || rp[1] == "off-curve" || (rp[1] == "neutral(0,1)" && !c.ed)):
 			return "ECPoint that is not on its curve (NewECPointNoCurveCheck only)"
+		case c.kind == kPoint && rp[1] == "other-curve":
+			// a valid point of ANOTHER curve handed to a function working on a stated curve: the callers in the
+			// protocols always build points with the round's own curve (UnFlattenECPoints(round.EC()), NewECPoint(ec, ..))
+			return "point of a different curve than the one the call is about"
 		}
 	}
 	return ""
